@@ -27,11 +27,13 @@ SG = ["_GET", "_POST", "_COOKIE", "_SERVER", "_REQUEST", "_REQUESTP", "_REQUESTC
 PRIV = ["rquery", "rheader", "local", "arr", "obj", "clo", "loop"]
 
 
-def coq_prog(segs):
-    # the handler sets status and the X-Id header from locals after its last read: two more private reads
+def coq_prog(segs, mw=0):
+    # the handler sets status and the X-Id header from locals after its last read: two more private reads;
+    # each middleware in front of it sets a header from the request object before $next and writes to the body
+    # after it: two more request-object reads per middleware
     segs = [list(s) for s in segs]
     body = [coq_list("(%s)" % RD[x] for x in s) for s in segs[:-1]]
-    body.append(coq_list(["(%s)" % RD[x] for x in segs[-1]] + ["RLocal", "RLocal"]))
+    body.append(coq_list(["(%s)" % RD[x] for x in segs[-1]] + ["RLocal", "RLocal"] + ["RObj", "RObj"] * mw))
     return coq_list(body)
 
 
@@ -45,13 +47,17 @@ def owner(v):
     return int(v) if v.isdigit() else None
 
 
-def observed(segs, resp):
+def observed(segs, resp, mw=0):
     vals = []
     for k, seg in enumerate(segs):
         for j, _ in enumerate(seg):
             vals.append(owner(resp["fields"].get("s%dr%d" % (k, j))))
     vals.append(resp["status"] - 200 if resp.get("status") else None)
     vals.append(owner(resp.get("xid")))
+    for j in range(mw):
+        hdrs = resp.get("mw") or []
+        vals.append(owner(hdrs[j]) if j < len(hdrs) else None)
+        vals.append(owner(resp["fields"].get("m%db" % j)))
     return vals
 
 
@@ -59,8 +65,8 @@ def coq_obs(vals):
     return coq_list("None" if v is None else "(Some %d)" % v for v in vals)
 
 
-def kinds_of(segs):
-    return [x for s in segs for x in s] + ["status", "header"]
+def kinds_of(segs, mw=0):
+    return [x for s in segs for x in s] + ["status", "header"] + [k for j in range(mw) for k in ("mw-header", "mw-body")]
 
 
 def contiguous(order, i):
@@ -69,13 +75,13 @@ def contiguous(order, i):
     return bool(pos) and pos[-1] - pos[0] + 1 == len(pos)
 
 
-def foreign_keys(segs, i, vals, window=False):
+def foreign_keys(segs, i, vals, window=False, mw=0):
     """for request i (1-based): (kind, shape) of every read that returned foreign data;
     shape = first-read-foreign | changed-between-reads (the same superglobal answered with the request's own
     data earlier in this request)"""
     res = []
     seen_own = set()
-    for kind, v in zip(kinds_of(segs), vals):
+    for kind, v in zip(kinds_of(segs, mw), vals):
         g = GLOBAL_OF.get(kind)
         if v == i:
             if g:
@@ -113,6 +119,15 @@ def gated_cases(rng, tier):
         prog = [[g], [g, "arr", "clo", "loop", "rheader"]]
         cases.append({"segs": prog, "nreq": 3, "schedule": [0, 0, 1, 1, 1, 2, 2, 2, 0], "route": "mux", "gen": "parked"})
         cases.append({"segs": prog, "nreq": 3, "schedule": [0, 1, 1, 1, 0, 2, 2, 2, 0], "route": "handler", "gen": "parked"})
+    # routes behind 1-2 middlewares (header before $next, body write after it), plain and in a $server->group,
+    # after a warm-up request: every interleaving of two requests x two segments, and parked shapes with three;
+    # programs without superglobals (every difference is a violation) and with $_GET
+    for mw, group in ((1, False), (2, False), (1, True), (2, True)):
+        for prog in ([["local", "rquery"], ["arr", "obj", "clo"]], [["_GET", "local"], ["_GET", "rheader"]]):
+            for sch in interleavings([3, 3]):
+                cases.append({"segs": prog, "nreq": 2, "schedule": list(sch), "route": "mux", "mw": mw, "group": group, "warmup": True, "gen": "middleware-2x2"})
+            for sch in ([0, 0, 1, 1, 1, 2, 2, 2, 0], [0, 1, 2, 2, 1, 0, 0, 1, 2], [2, 2, 0, 0, 0, 1, 1, 2, 1]):
+                cases.append({"segs": prog, "nreq": 3, "schedule": sch, "route": "mux", "mw": mw, "group": group, "warmup": True, "gen": "middleware-parked"})
     # serial schedules in every order (must be clean)
     prog = [["_GET", "_POST", "_COOKIE"], ["_SERVER", "_REQUEST", "_REQUESTP", "_REQUESTC", "local"]]
     for order in itertools.permutations(range(3)):
@@ -124,7 +139,10 @@ def gated_cases(rng, tier):
         n = rng.randint(2, 4)
         sch = [i for i in range(n) for _ in range(nseg + 1)]
         rng.shuffle(sch)
-        cases.append({"segs": prog, "nreq": n, "schedule": sch, "route": rng.choice(["handler", "mux"]), "gen": "seeded"})
+        c = {"segs": prog, "nreq": n, "schedule": sch, "route": rng.choice(["handler", "mux", "mux"]), "gen": "seeded"}
+        if c["route"] == "mux":
+            c.update({"mw": rng.randint(0, 2), "group": rng.random() < 0.4, "warmup": rng.random() < 0.6})
+        cases.append(c)
     return cases
 
 
@@ -165,6 +183,8 @@ def load_cases(rng, tier):
     for n, procs in ((2, 2), (8, 4), (16, 4), (64, 16)) if tier == "quick" else ((2, 1), (2, 2), (4, 4), (8, 4), (16, 4), (16, 16), (32, 8), (64, 16)):
         for prog in progs:
             cases.append({"segs": prog, "nreq": n, "gomaxprocs": procs, "rounds": 3 if tier == "quick" else 10})
+        cases.append({"segs": progs[2], "nreq": n, "gomaxprocs": procs, "rounds": 3 if tier == "quick" else 10,
+                      "route": "mux", "mw": 2, "group": n % 16 == 0, "warmup": True})
     return cases
 
 
@@ -213,16 +233,18 @@ def main(ck):
         if "err" in o or any(r.get("panic") for r in o["resps"]):
             ck.violation("impl-error:gated", {"case": c, "impl_out": o})
             continue
-        obs = [observed(c["segs"], r) for r in o["resps"]]
+        obs = [observed(c["segs"], r, c.get("mw", 0)) for r in o["resps"]]
         c["_obs"] = obs
-        terms.append("(%s, %d, %s, %s)" % (coq_prog(c["segs"]), c["nreq"], coq_list(str(x) for x in o["order"]),
+        if c.get("warmup") and o.get("warmup") and any(v != 99 for v in observed(c["segs"], o["warmup"], c.get("mw", 0))):
+            ck.violation("private:warmup-response", {"case": c, "impl_out": o["warmup"], "clause": "a request served alone gets its own response"})
+        terms.append("(%s, %d, %s, %s)" % (coq_prog(c["segs"], c.get("mw", 0)), c["nreq"], coq_list(str(x) for x in o["order"]),
                                             coq_list(coq_obs(v) for v in obs)))
         idx.append(i)
     bad = ck.eval_cases("gcases", HEADER, terms, "check_case", shard=200)
     interfering = 0
     for j, cls in sorted(bad.items(), key=lambda kv: len(gcases[idx[kv[0]]]["schedule"])):
         c, o = gcases[idx[j]], gouts[idx[j]]
-        rep = {"case": {k: c[k] for k in ("segs", "nreq", "schedule", "route")}, "executed_order": o["order"], "impl_out": o["resps"], "clauses": cls}
+        rep = {"case": {k: c[k] for k in ("segs", "nreq", "schedule", "route", "mw", "group", "warmup") if k in c}, "executed_order": o["order"], "impl_out": o["resps"], "clauses": cls}
         if 1 in cls:
             ck.broken.append("correspondence:C11.gated")
             ck.violation("tie:gated", dict(rep, clause="model vs implementation (tie)"))
@@ -230,7 +252,7 @@ def main(ck):
             interfering += 1
             keys = set()
             for ri, vals in enumerate(c["_obs"]):
-                for kind, name, shape in foreign_keys(c["segs"], ri + 1, vals, contiguous(o["order"], ri)):
+                for kind, name, shape in foreign_keys(c["segs"], ri + 1, vals, contiguous(o["order"], ri), c.get("mw", 0)):
                     keys.add("private:%s" % name if kind == "private" else "sg:%s:%s" % (name, shape))
             for k in sorted(keys):
                 ck.violation(k, dict(rep, clause="private_state_isolated" if k.startswith("private") else "superglobals_isolated (refuted: overlapping requests)"))
@@ -313,8 +335,8 @@ def main(ck):
                     ck.violation("load:panic:" + at, {"case": c, "panic": str(r.get("panic"))[:300], "at": r.get("at"),
                                                        "clause": "a request served under parallel load panicked"})
                 continue
-            obs = [observed(c["segs"], r) for r in rnd]
-            lterms.append("(%s, %s)" % (coq_prog(c["segs"]), coq_list(coq_obs(v) for v in obs)))
+            obs = [observed(c["segs"], r, c.get("mw", 0)) for r in rnd]
+            lterms.append("(%s, %s)" % (coq_prog(c["segs"], c.get("mw", 0)), coq_list(coq_obs(v) for v in obs)))
             lidx.append((i, obs))
     lbad = ck.eval_cases("lcases", HEADER, lterms, "check_load", shard=100) if lterms else {}
     for j, cls in sorted(lbad.items()):
@@ -322,7 +344,7 @@ def main(ck):
         c = lcases[i]
         keys = set()
         for ri, vals in enumerate(obs):
-            for kind, name, shape in foreign_keys(c["segs"], ri + 1, vals):
+            for kind, name, shape in foreign_keys(c["segs"], ri + 1, vals, False, c.get("mw", 0)):
                 keys.add("private:%s" % name if kind == "private" else "sg:%s:parallel-load" % name)
         if 4 in cls:
             keys.add("load:missing-output")
@@ -351,7 +373,7 @@ def main(ck):
     ck.cov["load_configs"] = [{"nreq": c["nreq"], "gomaxprocs": c.get("gomaxprocs"), "rounds": c.get("rounds")} for c in lcases]
     ck.cov["load_rounds_compared"] = len(lterms)
     ck.cov["race_reports"] = races
-    nreads = sum(len(kinds_of(c["segs"])) * c["nreq"] for c in gcases) + sum(len(kinds_of(lcases[i]["segs"])) * len(obs) for i, obs in lidx)
+    nreads = sum(len(kinds_of(c["segs"], c.get("mw", 0))) * c["nreq"] for c in gcases) + sum(len(kinds_of(lcases[i]["segs"], lcases[i].get("mw", 0))) * len(obs) for i, obs in lidx)
     ck.finish(level="proof", evaluations=nreads, distinct_nontrivial=len(set(json.dumps([c["segs"], c["schedule"], c["nreq"]]) for c in gcases if len(set(c["schedule"])) > 1)),
               rule="scripted: the witness on both routes; every interleaving of two requests x two segments for each of the 7 superglobal reads "
                    "(20 schedules each); parked-at-a-gate shapes with three requests; all serial orders of three requests; seeded programs "
